@@ -30,9 +30,10 @@ import warnings
 
 import numpy as np
 
-from lib import core, gen, graphcap, denote, oracle
+from lib import core, exectie, gen, graphcap, denote, oracle
 
 EXTRACTORS = ["Adapt"]
+EXTRA_PROPS = ["C15Exec"]
 
 
 # ------------------------------------------------------------------------------------------------ user functions
@@ -525,6 +526,13 @@ def model_checks(ctx, fc, case, opts, run):
     else:
         bad += 1
         ctx.tie_broken("correspondence:adapt-graph", f"{sig(fc, case, opts)}: the proved checker rejects the traced graph: {v['reason']}\ncode:\n{rec['code']}")
+    # work package "exec": the graph that was compiled, translated from the C04 graph; premises and instance of
+    # exec_from_compile / adapter_called_once_compiled (Props/C15Exec.lean)
+    cg = rec.get("compiled_graph")
+    if cg is not None:
+        before = len(ctx.broken)
+        exectie.exec_adapt(ctx, cg, rec.get("code"), arg_shapes, axis, model_opts, out_shape, sig(fc, case, opts))
+        bad += len(ctx.broken) - before
     return bad
 
 
@@ -837,6 +845,7 @@ def run(ctx):
     ctx.assumptions.append("solved stage-3 expression trees are taken from einx itself (front-trusted; tied by C02/C07/C12); the loop interpreter lib/denote.py is the specification")
     ctx.assumptions.append("the numpy-like contract f(x, axis=A)[rho] = f(x[rho, :]) is a hypothesis of reduce_axis_semantics; the test functions satisfy it by construction (numpy reductions)")
     ctx.assumptions.append("adapt_with_vmap: not exercised, no framework with vmap is installed on this image")
+    ctx.assumptions.append("adapter_called_once_compiled (Props/C15Exec.lean) connects adaptOK with the emitted program (C04) under the decidable premises wf_graph/supported/fwf/reachable, which are evaluated on every compiled graph of this run together with the instance of the conclusion (histogram exec-thm:*); the model text is compared with the real emitted text; CPython executing the emitted text statement by statement is trusted")
     ctx.assumptions.append("option values of literal types (int, float, bool, None, str, tuples of these); einx embeds options as literals in generated code, so lists arrive as tuples, "
                            "arrays as nested tuples and arbitrary objects are refused with NotImplementedError (observed on the pinned tree, not flagged)")
     use_model = bool(getattr(ctx, "driver_ok", False))
